@@ -114,6 +114,54 @@ def parse_san(text, repo):
     return kind, fn, frames
 
 
+_tree_files = {}
+
+
+def _tree_basenames(repo):
+    if repo not in _tree_files:
+        names = set()
+        for d in ("mptcore", "mptio", "mptplot", "mptloader", "mpt++"):
+            for root, dirs, files in os.walk(os.path.join(repo, d)):
+                names.update(f for f in files if f.endswith((".c", ".cpp", ".h")))
+        _tree_files[repo] = names
+    return _tree_files[repo]
+
+
+MC_KINDS = [("Conditional jump or move depends on uninitialised", "uninitialised-branch"),
+            ("Use of uninitialised value", "uninitialised-use"),
+            ("Syscall param", "uninitialised-syscall-param"),
+            ("Invalid read", "invalid-read"), ("Invalid write", "invalid-write"),
+            ("Invalid free", "invalid-free"), ("Mismatched free", "mismatched-free"),
+            ("Source and destination overlap", "overlap"), ("Argument", "fishy-argument")]
+MC_FRAME = re.compile(r"^==\d+==\s+(?:at|by) 0x[0-9A-Fa-f]+: (.+?) \((?:in )?([^)]*)\)\s*$")
+
+
+def parse_memcheck(text, repo):
+    """first error of a valgrind log -> (kind, first tree function, [frames])"""
+    kind = None
+    frames = []
+    names = _tree_basenames(repo)
+    fn = None
+    for line in text.splitlines():
+        if kind is None:
+            for pat, k in MC_KINDS:
+                if pat in line:
+                    kind = k
+                    break
+            continue
+        m = MC_FRAME.match(line)
+        if m:
+            f, loc = _fn(m.group(1)), m.group(2)
+            frames.append(f)
+            base = os.path.basename(loc.split(":")[0])
+            if fn is None and (base in names or "/libmpt" in loc):
+                fn = f
+            continue
+        if frames:
+            break
+    return kind, fn, frames
+
+
 def leak_sites(text, repo):
     """allocation sites (innermost tree function) of every leak block"""
     sites = []
@@ -142,7 +190,7 @@ def leak_sites(text, repo):
 # --------------------------------------------------------------------------
 class Leg:
     def __init__(self, exe, name, tier, seed, workdir, repo, nshards=16, batch=256,
-                 lsan=False, timeout=120, known=(), extra_env=None, max_viol=60):
+                 lsan=False, timeout=120, known=(), extra_env=None, max_viol=60, memcheck=False, stride=1):
         self.exe, self.name, self.tier, self.seed = exe, name, tier, seed
         self.work, self.repo = workdir, repo
         self.nshards, self.batch, self.lsan = nshards, batch, lsan
@@ -150,6 +198,8 @@ class Leg:
         self.known = list(known)
         self.extra_env = extra_env or {}
         self.max_viol = max_viol
+        self.memcheck = memcheck      # run under valgrind memcheck (plain flavour build)
+        self.stride = max(1, stride)  # evaluate every stride-th case only
         self.lock = threading.Lock()
         self.violations = []      # dicts
         self.inconclusive = []    # strings
@@ -190,6 +240,9 @@ class Leg:
             cmd.append("--log")
         else:
             cmd += ["--fp", fp]
+        if self.memcheck:
+            cmd = ["valgrind", "-q", "--error-exitcode=%d" % SAN_EXIT, "--track-origins=yes", "--leak-check=no",
+                   "--num-callers=24", "--log-file=%s.%%p" % lp] + cmd
         timeout = timeout or self.timeout
         errf = open(os.path.join(self.work, "err-" + tag), "wb")
         p = subprocess.Popen(cmd, env=env, stdout=subprocess.DEVNULL, stderr=errf,
@@ -256,6 +309,11 @@ class Leg:
             return st["vkey"], st["vdetail"]
         if r["hung"]:
             return "hang:@" + at, "no progress for the watchdog interval while in " + at
+        if r["san"] and self.memcheck:
+            kind, fn, frames = parse_memcheck(r["san"], self.repo)
+            if kind:
+                top = " <- ".join(frames[:6])
+                return "memcheck:%s:%s@%s" % (kind, fn or "?", at), "valgrind: %s in %s (stack: %s)" % (kind, fn, top)
         if r["san"]:
             kind, fn, frames = parse_san(r["san"], self.repo)
             if kind == "leak":
@@ -289,8 +347,8 @@ class Leg:
 
     def worker(self, shard):
         tag = "w%d" % shard
-        step = self.nshards
-        k = shard
+        step = self.nshards * self.stride
+        k = shard * self.stride
         total = self.total
         nviol = 0
         while k < total:
